@@ -306,20 +306,41 @@ def parse_output(text: str) -> List[JobResult]:
 
 
 def run_binary(exe: Path, events_txt: str, plans: List[Tuple[int, str, List[int]]], timeout=600) -> List[JobResult]:
-    inp = events_txt + "".join(f"JOB {j} {tag} {len(ev)} {' '.join(map(str, ev))}\n" for j, tag, ev in plans)
-    r = subprocess.run([str(exe)], input=inp.encode(), capture_output=True, timeout=timeout)
-    out = r.stdout.decode("utf-8", errors="surrogateescape")
-    jobs = parse_output(out)
-    if r.returncode != 0:
-        # a crash (signal) inside one job: mark the last job as crashed and report
-        if jobs:
-            jobs[-1].init = jobs[-1].init if jobs[-1].init != "ok" else f"CRASH rc={r.returncode}"
-            if jobs[-1].events and jobs[-1].events[-1].end == "MISSING":
-                jobs[-1].events[-1].end = "CRASH"
-                jobs[-1].events[-1].what = f"rc={r.returncode} " + r.stderr.decode(errors="replace")[-300:]
-        else:
-            raise RuntimeError(f"harness: driver failed rc={r.returncode}: {r.stderr.decode(errors='replace')[:2000]}")
-    return jobs
+    """Run the job plans.  A job that crashes the process (signal) is recorded as CRASH and the remaining plans are
+    run in a fresh process, so one crashing program cannot hide the others."""
+    all_jobs: List[JobResult] = []
+    remaining = list(plans)
+    guard = 0
+    while remaining:
+        guard += 1
+        if guard > len(plans) + 2:
+            raise RuntimeError("harness: driver keeps crashing without progress")
+        inp = events_txt + "".join(f"JOB {j} {tag} {len(ev)} {' '.join(map(str, ev))}\n" for j, tag, ev in remaining)
+        try:
+            r = subprocess.run([str(exe)], input=inp.encode(), capture_output=True, timeout=timeout)
+            rc, so, se = r.returncode, r.stdout, r.stderr
+        except subprocess.TimeoutExpired as te:
+            rc, so, se = -999, te.stdout or b"", b"timeout"
+        out = so.decode("utf-8", errors="surrogateescape")
+        jobs = parse_output(out)
+        if rc == 0:
+            all_jobs += jobs
+            break
+        if not jobs:
+            raise RuntimeError(f"harness: driver failed rc={rc} before the first job: {se.decode(errors='replace')[:2000]}")
+        last = jobs[-1]
+        what = f"rc={rc} " + se.decode(errors="replace")[-200:]
+        if last.events and last.events[-1].end == "MISSING":
+            last.events[-1].end = "CRASH"
+            last.events[-1].what = what
+        elif not last.complete:
+            if last.init == "ok" and not last.events:
+                last.init = "CRASH " + what
+            else:
+                last.events.append(EvtResult(-1, end="CRASH", what=what))
+        all_jobs += jobs
+        remaining = remaining[len(jobs):]
+    return all_jobs
 
 
 def parse_value(s: str):
